@@ -454,6 +454,7 @@ RULES = [
     ("X-NAMES", "column names and function names do not overlap (a bare word is tried as a column first) [shared]", lambda ctx: __import__("extra2").names_disjoint(ctx)),
     ("X-BRACKETS", "wherever the parser tests for a closing bracket of one style it provides for the other style as well [shared]", lambda ctx: __import__("extra2").bracket_styles_agree(ctx)),
     ("C11-R7", "one-argument and split renderings of a query are lexed alike (blanks inside quoted literals included)", lambda ctx: __import__("extra2").lexer_split_invariance(ctx)),
+    ("C11-R8", "every documented operator spelling is lexed as one operator lexem (by interpretation of the lexer)", lambda ctx: __import__("extra2").operator_spellings_lex_whole(ctx)),
 ]
 
 EXPLANATION = (
